@@ -660,7 +660,7 @@ func runC01(c *Ctx) {
 		"exhaustive strings over {00,01,FF} up to length 7 (quick) / 10 (thorough) for ba=1 spp=1, single-run boundary " +
 		"frames (run 1..4,126..131,254..259,384..386 after 0/1/2/127/128/129 literals), run-length-biased planes/frames " +
 		"(runs 1,2,3,126..131,255..258,383..385,512, literals around 128/256), random and striped frames, odd frame " +
-		"lengths, sizes to 64 KiB (quick) / 1024x1024, 65535x1, 1x65535 (thorough); non-trivial = at least 2 bytes and " +
+		"lengths, sizes to 64 KiB plus 65535x1 / 1x65535 (quick) / 1024x1024 (up to 3 planes), 512x512 (6 and 12 planes), 65535x1, 1x65535 for all classes (thorough); non-trivial = at least 2 bytes and " +
 		"not constant; decoder also on harness-built legal streams with other packet splits and on damaged streams"
 
 	var cases []tcase
@@ -717,8 +717,8 @@ func runC01(c *Ctx) {
 	if c.Thor {
 		for _, cl := range classes {
 			for _, d := range [][2]int{{65535, 1}, {1, 65535}, {1024, 1024}} {
-				if d[0] == 1024 && !(cl.planar == 0 || cl.bits == 8) {
-					continue // 1024x1024: 8 of the 12 classes (keeps the thorough tier bounded)
+				if d[0] == 1024 && ((cl.bits-1)/8+1)*cl.spp > 3 {
+					d = [2]int{512, 512} // more than 3 planes: 512x512 keeps the model's memory bounded
 				}
 				t := structuredCase(rng, cl, d[0]*d[1], rng.Intn(2))
 				t.g.rows, t.g.cols = d[0], d[1]
@@ -830,7 +830,7 @@ func arbitraryFrameInfo(c *Ctx) {
 			k.rows, k.cols = 1, 1
 		}
 		// a stream: valid for a nearby accepted geometry, or mutated, or junk
-		g := geo{rows: max(k.rows, 1), cols: max(k.cols, 1), bits: []int{8, 16, 32}[r.Intn(3)], spp: r.Pick(1, 3), planar: k.planar & 1}
+		g := geo{rows: min(max(k.rows, 1), 12), cols: min(max(k.cols, 1), 12), bits: []int{8, 16, 32}[r.Intn(3)], spp: r.Pick(1, 3), planar: k.planar & 1}
 		if ba >= 1 && ba <= 4 && r.Intn(3) != 0 {
 			g.bits = ba * 8
 			if k.spp >= 1 && k.spp <= 3 {
